@@ -14,7 +14,8 @@ from . import build, core, known
 
 VERIF = "/verif"
 # when a scratch tree is checked (VF_REPO/VF_BUILD, see build.py) evidence and new replay files go next to that build
-OUT = os.environ.get("VF_BUILD") and os.path.dirname(os.environ["VF_BUILD"].rstrip("/")) or VERIF
+# VF_OUT redirects them explicitly (seed sweeps that must not touch the committed evidence).
+OUT = os.environ.get("VF_OUT") or (os.environ.get("VF_BUILD") and os.path.dirname(os.environ["VF_BUILD"].rstrip("/"))) or VERIF
 ALL_IDS = ["C%02d" % i for i in range(1, 51)]
 
 
